@@ -385,7 +385,9 @@ pub fn cmd_run(id: &str, tier_name: &str) -> ExitCode {
     tier.stop_on_first = known.is_empty();
 
     let batch = run_batch(&meta.prop, seed, &tier);
-    if batch.determinism_mismatches > 0 {
+    // (a violating run is reported even if re-executions disagreed: code under test that keeps
+    // state across calls makes runs depend on their predecessors, and that is its defect, not ours)
+    if batch.determinism_mismatches > 0 && batch.violations.is_empty() {
         eprintln!(
             "vsim: HARNESS ERROR: {} re-executed runs produced a different event-log hash (nondeterminism in the simulator)",
             batch.determinism_mismatches
@@ -401,7 +403,15 @@ pub fn cmd_run(id: &str, tier_name: &str) -> ExitCode {
             break;
         }
         let class = o.violation.as_ref().unwrap().class.clone();
-        let m = minimise(t.clone(), &class, meta.prop.execute, 4000);
+        let mut m = minimise(t.clone(), &class, meta.prop.execute, 4000);
+        if m.outcome.violation.is_none() {
+            // the recorded re-execution of the (minimised) trace did not fail although the run
+            // did: the code under test keeps state across runs (a static or thread-local), so the
+            // verdict depends on what the executing thread did before.  Report the run as found.
+            let mut log = o.log.clone();
+            log.push("note: this violation did not reproduce when the trace was re-executed on the reporting thread; the code under test carries state across calls (static / thread-local), which the replay of a single trace cannot restore".to_string());
+            m = crate::minimise::Minimised { trace: t.clone(), outcome: Outcome { violation: o.violation.clone(), hash: o.hash, log, nontrivial: o.nontrivial }, executions: m.executions };
+        }
         let sig = format!("{:016x}", m.trace.signature());
         if let Some(k) = known.iter().find(|k| k.class == class && k.sig == sig) {
             if !known_hits.contains(&k.text) {
